@@ -118,6 +118,34 @@ pub fn check_text(l: &mut Local, t: &[u8]) {
         l.hist("outcome", format!("{}:{}", T::NAME, ["accept", "reject@BlockSize", "reject@BlockHash1", "reject@BlockHash2", "", "", "", "", "", "panic"][c as usize]));
         i += 1;
     });
+    // the string comparison function parses both sides into the long normalizing type: a failure must
+    // be attributed to the side that failed, with the same error the parser itself gives
+    #[cfg(feature = "ffstd")]
+    if let Ok(ts) = std::str::from_utf8(t) {
+        use ssdeep::{ParseErrorInfo, ParseErrorSide};
+        const GOOD: &str = "6:abcdefgh:ijklmnop";
+        let direct = guard(|| ts.parse::<ssdeep::LongFuzzyHash>());
+        let both = guard(|| (ssdeep::compare(ts, GOOD), ssdeep::compare(GOOD, ts)));
+        l.eval(2);
+        match (direct, both) {
+            (Ok(d), Ok((left, right))) => {
+                let ok = match &d {
+                    Ok(_) => left.is_ok() && right.is_ok(),
+                    Err(e) => {
+                        let same = |x: &Result<u32, ssdeep::ParseErrorEither>, side: ParseErrorSide| match x {
+                            Err(pe) => pe.side() == side && pe.kind() == e.kind() && pe.origin() == e.origin() && pe.offset() == e.offset(),
+                            Ok(_) => false,
+                        };
+                        same(&left, ParseErrorSide::Left) && same(&right, ParseErrorSide::Right)
+                    }
+                };
+                l.check(ok, "compare-error-side", || {
+                    (format!("C04|compare-side|{}", esc(t)), format!("compare(\"{}\", good) = {:?}, compare(good, same) = {:?}, but parsing that text as LongFuzzyHash gives {:?}", esc(t), left, right, d.as_ref().map(|_| "Ok")))
+                });
+            }
+            (Err(p), _) | (_, Err(p)) => l.violation("totality", format!("C04|compare-side|panic|{}", esc(t)), format!("compare() / parse of \"{}\" panicked: {}", esc(t), p)),
+        }
+    }
     let acc = classes.iter().filter(|&&c| c == 0).count();
     let collapsed = match model::parse(t, 64, false, false) {
         Parsed::Accept { bh1, bh2, .. } => !model::is_normalized(&bh1) || !model::is_normalized(&bh2),
